@@ -101,6 +101,7 @@ Lemma read_ts_body_patched_total len inp : total (read_ts_body patched len inp).
 Proof.
   unfold read_ts_body. apply total_bind; [apply read_varint_total|]. intros [[[off neg] olen] rest] _. cbv zeta.
   apply total_bind; [apply read_fields_total|]. intros [[[len' pr] fs] rest'] _.
+  apply total_if; [apply total_err|].
   apply total_bind; [destruct (0 <? len'); [apply read_nsecs_patched_total|apply total_ok]|].
   intros [[nsecs ov] fp] _. apply try_create_total.
 Qed.
